@@ -3,6 +3,7 @@ CONSTANTS
   Masters = {1, 2, 3}
   Nodes = {1}
   Rules <- AllRules
+  MbpCap = 101
   Cfg <- CfgEnd3
   MaxLive = 2
   MaxNum = 1
